@@ -304,9 +304,13 @@ fn gen_text(rng: &mut Rng, cfg: &Cfg, directed: Option<usize>, sub: usize) -> St
             s.push(*rng.pick(TEXT_EXTRA));
         } else if r < 17 && cfg.pipe.contains(&'Y') {
             // a yomigana-shaped group
-            s.push(*rng.pick(&['漢', '字', '東']));
+            // the annotated character / the reading characters also come from the EDGES of the class runs of char.def
+            // (last character of a run, first one after it): the plugin builds regex classes from half-open ranges
+            const KANJI_EDGE: &[char] = &['\u{3005}', '\u{3006}', '\u{3007}', '\u{3008}', '\u{3400}', '\u{33ff}', '\u{4db5}', '\u{4db6}', '\u{4dff}', '\u{4e00}', '\u{9fa5}', '\u{9fa6}', '\u{f900}', '\u{fa2d}', '\u{fa2e}', '\u{fa6a}', '\u{fa6b}'];
+            const KANA_EDGE: &[char] = &['\u{3040}', '\u{3041}', '\u{309f}', '\u{30a0}', '\u{30a1}', '\u{30ff}', '\u{3100}', '\u{31f0}', '\u{31ff}', '\u{3200}', '\u{ff65}', '\u{ff66}', '\u{ff9f}', '\u{ffa0}', '\u{036f}', '\u{0370}', '\u{200d}', '\u{200e}'];
+            s.push(if rng.chance(1, 5) { *rng.pick(KANJI_EDGE) } else { *rng.pick(&['漢', '字', '東']) });
             s.push(if rng.chance(4, 5) { *rng.pick(&cfg.yl) } else { *rng.pick(LEFTS) });
-            for _ in 0..rng.below(cfg.yn + 2) { s.push(*rng.pick(&['か', 'な', 'カ', 'ナ', 'ー', 'ｶ'])); }
+            for _ in 0..rng.below(cfg.yn + 2) { s.push(if rng.chance(1, 6) { *rng.pick(KANA_EDGE) } else { *rng.pick(&['か', 'な', 'カ', 'ナ', 'ー', 'ｶ']) }); }
             if rng.chance(5, 6) { s.push(if rng.chance(4, 5) { *rng.pick(&cfg.yr) } else { *rng.pick(RIGHTS) }); }
         } else if r < 19 && cfg.pipe.contains(&'P') && !cfg.marks.is_empty() {
             for _ in 0..rng.range(1, 4) { s.push(*rng.pick(&cfg.marks)); }
